@@ -271,7 +271,11 @@ def check_case(case):
 
     # ---- forward: shape, dtype, no mutation, accuracy
     x0, c0 = x.copy(), coord.copy()
-    ok, y = _guard(r, "nufft", lambda: sp.nufft(x, coord, **kw))
+    if (npts + nv) % 3 == 0:
+        # documented positional order nufft(input, coord, oversamp, width)
+        ok, y = _guard(r, "nufft", lambda: sp.nufft(x, coord, os_, w))
+    else:
+        ok, y = _guard(r, "nufft", lambda: sp.nufft(x, coord, **kw))
     r.check(np.array_equal(x, x0) and np.array_equal(coord, c0), "nufft:mutates-input")
     worst = 0.0
     if ok:
@@ -354,7 +358,10 @@ def check_case(case):
     oshape = batch + grid
     yin = A.arr({"k": "g", "shape": batch + pts_shape, "dtype": xdt, "seed": case["lin"]["seed"] ^ 0x5A5A})
     y0 = yin.copy()
-    oka, z = _guard(r, "nufft_adjoint", lambda: sp.nufft_adjoint(yin, coord, tuple(oshape), **kw))
+    if (npts + nv) % 3 == 0:
+        oka, z = _guard(r, "nufft_adjoint", lambda: sp.nufft_adjoint(yin, coord, tuple(oshape), os_, w))   # (input, coord, oshape, oversamp, width)
+    else:
+        oka, z = _guard(r, "nufft_adjoint", lambda: sp.nufft_adjoint(yin, coord, tuple(oshape), **kw))
     r.check(np.array_equal(yin, y0) and np.array_equal(coord, c0), "nufft_adjoint:mutates-input")
     if oka:
         z = np.asarray(z)
